@@ -420,3 +420,9 @@ func C10_ModuleCall() { focus = "C10"; sceneModuleCall() }
 // C20: pricing texts with promotion windows (RFC 3339 admits year 0000)
 func C20_BindPromotions()   { focus = "C20"; sceneBindingMsg(opBind, BindOpts{NT: 1, NV: 1}) }
 func C20_UpdatePromotions() { focus = "C20"; sceneBindingMsg(opUpdBinding, BindOpts{NT: 1, NV: 1}) }
+
+func C09_PauseNoticeKills() { focus = "C09"; scenePauseNoticeKills() }
+func C12_PauseNoticeKills() { focus = "C12"; scenePauseNoticeKills() }
+
+// C18: the scan over all earnings records at zero-height preparation decodes each record's provider
+func C18_ZeroHeight() { focus = "C18"; sceneGenesis(gnQuick) }
